@@ -156,6 +156,12 @@ func (checker *Checker) rootOfAccessChain(target ast.Expression) (baseVariable *
 				elementType = indexExprTypes.IndexedType.ElementType(true)
 			}
 			accessChain = append(accessChain, elementType)
+			// Also add the type of the indexed value:
+			// it is not part of the chain otherwise when it is the result of a member access, e.g. `a.b[0]`,
+			// as only the type of the accessed value (`a`) is added for member accesses
+			if ok {
+				accessChain = append(accessChain, indexExprTypes.IndexedType)
+			}
 		case *ast.MemberExpression:
 			target = targetExp.Expression
 			memberType, _, _, _ := checker.visitMember(targetExp, true)
